@@ -144,6 +144,20 @@ Example C19_refuted_pinned_function_text :
                  (Ev STop (AAssign K_A (EName n_g) false))) = Ok (XCloLocal 0 1 maker_param (xi 1)).
 Proof. vm_compute. repeat split. Qed.
 
+(* closures that escaped their maker and WRITE to its constant-named parameter (=, :=, a parameter / loop variable of the
+   same name, index assignment) fail or leave it alone; the reader closure over the same binding still returns it *)
+Definition n_w : name := [119]%N.                 (* "w" *)
+Example C19_ex_escaped_writers :
+  let c := repo_ccfg true in
+  let e1 := run_events c (root_env []) [Ev STop (AAssign n_w (EMkParam 1 K_A arr3) false)] in
+  snd (run_event c e1 (EvClo n_w (IAssign (xi 99) false))) = Err /\
+  snd (run_event c e1 (EvClo n_w (IAssign arr3 true))) = Err /\
+  snd (run_event c e1 (EvClo n_w (IParam (xi 20)))) = Err /\
+  snd (run_event c e1 (EvClo n_w (ILoopInt 0 3))) = Ok arr3 /\
+  snd (run_event c e1 (EvClo n_w (IIdxSet (ki 0) (xi 7)))) = Err /\
+  snd (run_event c (run_events c e1 [EvClo n_w (IAssign (xi 99) false); EvClo n_w (ILoopList [xi 5])]) (EvClo n_w IRead)) = Ok arr3.
+Proof. vm_compute. repeat split. Qed.
+
 Print Assumptions C19_constant_stable.
 Print Assumptions C19_lookup_stable.
 Print Assumptions C19_not_shadowed.
